@@ -18,7 +18,17 @@ ASSUMPTIONS = [
     "construction (microframe 7 is the maximum reached; 3-bit wrap-around is not exercised)",
     "frame_number / microframe_number are compared at the end of the idle time that follows each packet, and must not "
     "take any third value in between; new_frame strobes are counted per packet",
+    "bus reset = SE0 on line_state with rx_active low for >= 305 cycles (this FS-only device's reset sequencer fires "
+    "after 300 cycles = 5 us; a real host holds it for >= 10 ms, the device's frame logic sees nothing more of it after "
+    "the sequencer fired); SE0 of <= 40 cycles is not a reset; lengths in between are not generated. The host keeps "
+    "counting frames across a reset. The statement does not say what a reset does to the reported numbers: frame and "
+    "microframe number may each stay or go to 0 (the observed values are then taken as current); no new_frame strobe "
+    "may occur, because no SOF was received. A short SE0 must change nothing",
 ]
+
+SE0, J_STATE = 0, 1
+RESET_MIN, NOT_RESET_MAX = 305, 40
+SE0_GUARD = 8
 
 
 def _harness():
@@ -48,7 +58,9 @@ def _build(start, ops):
             flat.append(op)
     for op in flat:
         k = op[0]
-        if k in ("sof", "sof-bad"):
+        if k == "se0":
+            out.append(dict(reset=op[1], idle=op[2]))
+        elif k in ("sof", "sof-bad"):
             d = op[1]
             if cur is None:
                 nxt = start
@@ -94,7 +106,34 @@ def _ops():
         st.tuples(st.just("sof"), st.integers(0, 2047)),
         st.tuples(st.just("sofrun"), st.integers(2, 8)),
         st.tuples(st.just("sof-bad"), delta, st.integers(0, 3), st.integers(0, 255)),
-        st.tuples(st.just("other"), other))
+        st.tuples(st.just("other"), other),
+        st.tuples(st.just("other"), other),
+        st.tuples(st.just("se0"), weighted([(320, 5), (RESET_MIN, 2), (400, 1), (700, 1), (3, 1), (NOT_RESET_MAX, 1)]),
+                  st.integers(2, 12)))
+
+
+def _render(evs, noise):
+    """utmi_rx.render for the packet events, with SE0 events {"reset": n, "idle": k} in between: n cycles of
+    line_state SE0 (receiver inactive), then J and k idle cycles.  -> script, ends, first: ends[i] = first cycle of
+    event i's window (first idle cycle after a packet / SE0_GUARD cycles after the first SE0 cycle of an SE0 event), first = first active cycle."""
+    script, e = [], []
+    first = None
+    for ev in evs:
+        if "reset" in ev:
+            # the SOF logic reports a packet a few cycles after its end: the preceding packet's window extends
+            # SE0_GUARD cycles into the SE0 (the sequencer cannot fire before cycle 300 of it)
+            e.append(len(script) + SE0_GUARD)
+            script.append(dict(rx_active=0, rx_valid=0, rx_data=noise, line_state=SE0))
+            script += [dict() for _ in range(ev["reset"] - 1)]
+            script.append(dict(line_state=J_STATE))
+            script += [dict() for _ in range(max(2, ev["idle"], SE0_GUARD + 2 - ev["reset"]) - 1)]
+        else:
+            sc, spans = utmi_rx.render([ev], noise=noise)
+            if first is None:
+                first = len(script)
+            e.append(len(script) + spans[0][1] + 1)
+            script += sc
+    return script, e, (first if first is not None else len(script))
 
 
 class Frames(Sub):
@@ -103,7 +142,8 @@ class Frames(Sub):
     rule = ("real USBDevice (no endpoints) fed 2..~40 packets (per-packet timing from a cyclic pool of 1..5 timings): SOFs whose numbers repeat / increment / skip / wrap 2047->0 / "
             "jump relative to the previous SOF, runs of 2..8 repeats (first number 0, 1, 2046, 2047 or random), SOFs corrupted (CRC5 bit flip, "
             "check nibble, truncated, over-long, random 16-bit word), own/foreign tokens, data, handshakes, garbage, empty "
-            "activations. Oracle straight from the statement on the literal bytes: after each well-formed SOF frame_number "
+            "activations; SE0 on line_state between packets (bus reset of 305..700 cycles, or 3/40 cycles = no reset; after a "
+            "bus reset no new_frame/sof_detected until the next SOF, frame/microframe each unchanged or 0). Oracle straight from the statement on the literal bytes: after each well-formed SOF frame_number "
             "== its number, microframe_number == 0 if the number changed else previous+1, exactly one new_frame strobe iff "
             "the number changed; any other packet changes nothing and strobes nothing. non-trivial = >=1 repeat, >=1 "
             "change and >=1 corrupted SOF or other packet between two SOFs")
@@ -113,7 +153,8 @@ class Frames(Sub):
 
     def strategy(self):
         evs = st.builds(
-            lambda start, ops, tms: [dict(tms[i % len(tms)], bytes=b) for i, b in enumerate(_build(start, ops))],
+            lambda start, ops, tms: [b if isinstance(b, dict) else dict(tms[i % len(tms)], bytes=b)
+                                     for i, b in enumerate(_build(start, ops))],
             st.one_of(st.sampled_from([0, 1, 2046, 2047]), st.integers(0, 2047)),
             long_lists(_ops(), min_size=2, max_size=24, average=9),
             st.lists(rx.timing(min_idle=2, max_idle=8, big_gaps=False), min_size=1, max_size=5))
@@ -121,20 +162,51 @@ class Frames(Sub):
 
     def run(self, case):
         evs = case["evs"]
-        script, spans = utmi_rx.render(evs, noise=case["noise"])
-        script[0].update(line_state=1, connect=1)
+        script, e, first = _render(evs, case["noise"])
+        script[0] = dict(dict(line_state=J_STATE), **script[0], connect=1)
         trace = self.h.run_script(script, tail=4)
-        e = rx.ends(spans)
         frame, micro = 0, 0
         labels = set()
         repeats = changes = between = 0
         seen_sof = False
-        for t in range(0, e[0]):
+        for t in range(0, e[0] if "reset" not in evs[0] else 0):
             o = trace[t]
             if o.nf or o.sof or (o.fn, o.mf) != (0, 0):
                 return fail(f"cycle {t}: activity before the first packet ended: {o}", signature="spurious-before-first")
         for i, ev in enumerate(evs):
             lo, hi = e[i], (e[i + 1] if i + 1 < len(e) else len(trace))
+            if "reset" in ev:
+                # SE0 on the bus: a bus reset (>= 305 cycles) or a short SE0.  No SOF is received in this window.
+                n = ev["reset"]
+                if NOT_RESET_MAX < n < RESET_MIN:
+                    raise ValueError("SE0 lengths between 41 and 304 cycles are not generated")
+                is_reset = n >= RESET_MIN
+                labels.add("bus-reset" if is_reset else "short-se0")
+                if is_reset and seen_sof and frame != 0:
+                    labels.add("bus-reset-after-nonzero-sof")
+                what = f"event {i} (SE0 for {n} cycles = {'bus reset' if is_reset else 'no reset'}), window cycles {lo}..{hi - 1}, " \
+                       f"(frame, microframe) before ({frame}, {micro})"
+                nfs = [t for t in range(lo, hi) if trace[t].nf]
+                if nfs:
+                    return fail(f"{what}: new_frame high in {len(nfs)} cycles (first {nfs[0]}) although no SOF was received",
+                                signature="new-frame-strobe-after-bus-reset" if is_reset else "new-frame-strobe-without-sof")
+                sofs = [t for t in range(lo, hi) if trace[t].sof]
+                if sofs:
+                    return fail(f"{what}: sof_detected at {sofs[:4]} although no SOF was received",
+                                signature="sof-detected-without-sof")
+                got = (trace[hi - 1].fn, trace[hi - 1].mf)
+                allowed_f = {frame, 0} if is_reset else {frame}
+                allowed_m = {micro, 0} if is_reset else {micro}
+                for t in range(lo, hi):
+                    v = (trace[t].fn, trace[t].mf)
+                    if v[0] not in allowed_f or v[1] not in allowed_m:
+                        return fail(f"{what}: (frame, microframe) = {v} at cycle {t}; without a SOF each may only keep its "
+                                    f"value" + (" or be cleared by the reset" if is_reset else ""),
+                                    signature="frame-state-changed-without-sof")
+                if got != (frame, micro):
+                    labels.add("reset-cleared-frame-state")
+                frame, micro = got
+                continue
             p = usb2.parse(ev["bytes"])
             before = (frame, micro)
             if p["kind"] == "sof":
